@@ -70,7 +70,8 @@ theorem save_cls_get {c : Val} {p : String × String} {fuel : Nat} {st st1 : DSt
               subst hsave
               rfl
             | none =>
-              simp only [hg, hbc] at hsave
+              have hck : cellOK h (.global m q) = true := by simp [cellOK, hm, hq]
+              simp only [hg, hbc, hck, if_true] at hsave
               split at hsave
               · cases hsave
               rename_i st2 h2
@@ -103,12 +104,16 @@ theorem save_str_load {fuel : Nat} (I : Inv hr h g opn st L) {a : Nat} {s : Stri
 /-- a class: module name, qualified name, STACK_GLOBAL, MEMOIZE -/
 theorem save_global_load {fuel : Nat} (ih : SaveOK hr h fuel) (I : Inv hr h g opn st L) {a : Nat} {m q : Val}
     {st' : DState} (hget : st.get a = none) (ho : h[a]? = some (.global m q))
-    (hok : cellOK h (.global m q) = true)
     (hsave : save h (fuel + 1) (.ref a) st = some st') :
     ∃ g' L' v', Sub hr h opn g L g' st' L' ∧ L'.stack = v' :: L.stack ∧ ValRel g' (.ref a) v' := by
+  have hok : cellOK h (.global m q) = true := by
+    simp only [save, hget, ho] at hsave
+    split at hsave
+    · assumption
+    · cases hsave
+  simp only [save, hget, ho, hok, if_true] at hsave
   simp only [cellOK, Bool.and_eq_true, Option.isSome_iff_exists] at hok
   obtain ⟨⟨ms, hms⟩, ⟨qs, hqs⟩⟩ := hok
-  simp only [save, hget, ho] at hsave
   split at hsave
   · cases hsave
   rename_i st1 h1
@@ -168,12 +173,16 @@ theorem state_build_load {fuel : Nat} (ih : SaveOK hr h fuel) {a a' : Nat} {o : 
 /-- an instance: class, `()`, NEWOBJ, MEMOIZE, then (if it has a `__dict__`) the state and BUILD -/
 theorem save_inst_load {fuel : Nat} (ih : SaveOK hr h fuel) (I : Inv hr h g opn st L) {a : Nat} {cls : Val}
     {state : Option Val} {st' : DState} (hget : st.get a = none) (ho : h[a]? = some (.inst cls state))
-    (hok : cellOK h (.inst cls state) = true)
     (hsave : save h (fuel + 1) (.ref a) st = some st') :
     ∃ g' L' v', Sub hr h opn g L g' st' L' ∧ L'.stack = v' :: L.stack ∧ ValRel g' (.ref a) v' := by
+  have hok : cellOK h (.inst cls state) = true := by
+    simp only [save, hget, ho] at hsave
+    split at hsave
+    · assumption
+    · cases hsave
+  simp only [save, hget, ho, hok, if_true] at hsave
   simp only [cellOK, Option.isSome_iff_exists] at hok
   obtain ⟨p, hp⟩ := hok
-  simp only [save, hget, ho] at hsave
   split at hsave
   · cases hsave
   rename_i st1 h1
@@ -198,12 +207,17 @@ theorem save_inst_load {fuel : Nat} (ih : SaveOK hr h fuel) (I : Inv hr h g opn 
 /-- a reduction (OrderedDict): callee, `()`, REDUCE, MEMOIZE, the items, then (if any) the state and BUILD -/
 theorem save_reduced_load {fuel : Nat} (ih : SaveOK hr h fuel) (I : Inv hr h g opn st L) {a : Nat} {callee : Val}
     {kvs : List (Val × Val)} {state : Option Val} {st' : DState} (hget : st.get a = none)
-    (ho : h[a]? = some (.reduced callee kvs state)) (hok : cellOK h (.reduced callee kvs state) = true)
+    (ho : h[a]? = some (.reduced callee kvs state))
     (hsave : save h (fuel + 1) (.ref a) st = some st') :
     ∃ g' L' v', Sub hr h opn g L g' st' L' ∧ L'.stack = v' :: L.stack ∧ ValRel g' (.ref a) v' := by
+  have hok : cellOK h (.reduced callee kvs state) = true := by
+    simp only [save, hget, ho] at hsave
+    split at hsave
+    · assumption
+    · cases hsave
+  simp only [save, hget, ho, hok, if_true] at hsave
   simp only [cellOK, Option.isSome_iff_exists] at hok
   obtain ⟨p, hp⟩ := hok
-  simp only [save, hget, ho] at hsave
   split at hsave
   · cases hsave
   rename_i st1 h1
